@@ -52,6 +52,11 @@ claim('C16', 'Bounded: list(scfg) and the region-concealing view of every level 
       'property-level contract checked on the enumerated scope; supporting function contracts proved by pyvc/z3', '5.C16')
 
 NOT_YET = 'check not built yet in this session (see DESIGN.md section 9 for the order of work)'
+claim('C18', 'Mixed: NameGenerator.new_block_name/new_region_name/new_var_name are proved to return name(kind, counter) and advance exactly that counter; injectivity '
+      'of each name shape and pairwise disjointness of the shapes (read from the source) are discharged by cvc5 on strings; histories of requests on a shared generator '
+      'and every name handed out during real pipeline runs are checked exhaustively up to the bounds (bounded).',
+      TB + '; A-str (str of a non-negative int is an injective digit string) assumed; R11 (input names inside the generator namespace) is a recorded finding',
+      PROOF_PLUS_BOUNDED + '; string lemmas by cvc5', '5.C18')
 ALL = ['C%02d' % i for i in range(1, 19)]
 
 def main():
